@@ -51,6 +51,36 @@ def work(job):
     g = fg.get_graph()
     nn = g.number_of_nodes()
     out = dict(base, nodes=nn)
+    # (0) the emitted statement sequence itself: a name that the program assigns somewhere but that is unbound at a read
+    #     is a dependence the order does not respect (names never assigned anywhere are C06's business, not an ordering matter)
+    if idx == 0:
+        import ast as _ast
+        from .. import e1, pathsat
+        try:
+            text = e1.compile_spec(spec, metrics)
+        except e1.Rejected as r:
+            if (spec.get("tags") or {}).get("legal"):
+                return dict(out, status="violation", confirmed=True, why="legal specification cannot be scheduled/emitted: %s" % r,
+                            sig={"engine": "E4", "kind": "rejected-legal"}, replay={"spec": spec, "metrics": metrics, "idx": idx, "order": None})
+            text = None
+        if text is not None:
+            user = pathsat.user_names(spec)
+            try:
+                pr = pathsat.analyse(text, user)
+            except (pathsat.Unsupported, SyntaxError):
+                pr = {"violations": []}
+            assigned = set()
+            for n in _ast.walk(_ast.parse(text)):
+                if isinstance(n, _ast.Name) and isinstance(n.ctx, _ast.Store):
+                    assigned.add(n.id)
+            early = [v for v in pr["violations"] if v["name"] in assigned]
+            if early:
+                v = early[0]
+                got = pathsat.replay_path(text, user, v)
+                return dict(out, status="violation", confirmed=(got == v["name"]),
+                            why="statement at line %d reads %r before the statement that binds it (use before definition on a path)" % (v["line"], v["name"]),
+                            sig={"engine": "E2", "kind": "use-before-def", "name": v["name"]},
+                            replay={"spec": spec, "metrics": metrics, "idx": idx, "order": None, "text": text})
     # (1) the order the real pipeline produces (real __sort + real __hoist), assertions evaluated concretely
     real_sorted = list(fg.get_sorted())
     fg._FlowGraph__hoist()
@@ -91,6 +121,9 @@ def candidates(tier, seed):
     specs += [(s, False) for s in oc[::61]]
     af = specgen.f_affine("quick", seed)
     specs += [(s, False) for s in af[::23]]
+    specs += [(s, False) for s in af if (s.get("tags") or {}).get("legal")]
+    import re as _re
+    specs += [(s, False) for s in oc if _re.search(r":o[A-Z]\d+o[A-Z]\d+", s["name"])][::9]
     specs += [(s, False) for s in specgen.f_cascade("quick", seed)[::3]]
     specs += [(s, False) for s in specgen.f_st("quick", seed)[::41]]
     for s in integ.integration_specs():
